@@ -14,6 +14,12 @@ The number of pairs is not bounded by the statement, so a few assemblies with ma
 groups on several contigs add up to any count, spread over scaffolds, next to abutting and other-contig
 decoys) go through the same routes and through find_overlapping_fragments, against the same oracle:
 every pair is named, however many there are.
+
+"For all assemblies" has no clause about an assembly never having been scanned before: an Assembly object is
+scanned, edited through the data model (Scaffold.add_row, rows[i] = ..., del rows[i], rows = [...], append_scaffold,
+reverse, asm.scaffolds.append / del / = [...], add_scaffold, smart_sort_scaffolds; built with add_scaffold, from the
+constructor's list, or in the parser's order: empty scaffold first, rows afterwards) and scanned again, and EVERY scan
+must report exactly the overlapping pairs of the rows the assembly holds at that moment (kind "rescan").
 """
 
 import collections
@@ -32,6 +38,7 @@ from click.testing import CliRunner
 
 from tola.assembly.assembly import Assembly
 from tola.assembly.fragment import Fragment
+from tola.assembly.gap import Gap
 from tola.assembly.scaffold import Scaffold
 
 from .common import Collector, agp_text
@@ -76,6 +83,8 @@ def replay(inp):
         check_pair(a, b, col, inp)
     elif inp["kind"] == "cli":
         check_cli(inp, col)
+    elif inp["kind"] == "rescan":
+        check_rescan(inp, col)
     else:
         check_scan(inp["scaffolds"], col, inp, cli=inp.get("cli", False))
     return col.failures[0]["message"] if col.failures else None
@@ -304,6 +313,327 @@ def fmt_pairs(counter):
     ) + ("; ..." if len(counter) > 6 else "") + "]"
 
 
+# ---------------------------------------------------------------------------------------------
+# scans repeated on ONE Assembly object, with edits in between
+#
+# An input is {"kind": "rescan", "scaffolds": [[row, ...], ...], "build": "add"|"ctor"|"parser",
+#   "scans": "every"|"ends"|"last", "steps": [step, ...]}; a row is [contig, start, end, strand] or ["GAP", length];
+# a step is one edit through the public data model (indices refer to the assembly as it is at that step):
+#   ["scan"]                          no edit (scanning twice gives the same answer)
+#   ["add_row", si, row]              asm.scaffolds[si].add_row(row)
+#   ["set_row", si, ri, row]          asm.scaffolds[si].rows[ri] = row
+#   ["insert_row", si, ri, row]       asm.scaffolds[si].rows.insert(ri, row)
+#   ["del_row", si, ri]               del asm.scaffolds[si].rows[ri]
+#   ["assign_rows", si, rows]         asm.scaffolds[si].rows = [rows]
+#   ["list_append", rows]             asm.scaffolds.append(Scaffold(new name, rows))
+#   ["add_scaffold", rows]            asm.add_scaffold(Scaffold(new name, rows))
+#   ["list_del", si]                  del asm.scaffolds[si]
+#   ["list_assign", [si, ...]]        asm.scaffolds = [asm.scaffolds[si], ...]
+#   ["sort"]                          asm.smart_sort_scaffolds()
+#   ["reverse", si]                   asm.scaffolds[si] = asm.scaffolds[si].reverse()
+#   ["join", si, sj, gap, keep]       asm.scaffolds[si].append_scaffold(asm.scaffolds[sj], gap); del asm.scaffolds[sj] unless keep
+# "scans": a scan after the build and after every step / after the build and after the last step / after the last step only.
+# The expected pairs are read off the rows the Scaffold objects of asm.scaffolds hold when the scan is made
+# (placements = (Fragment object, Scaffold object); same contig name and at least one common base).
+
+
+def row_obj(row):
+    return Gap(row[1], "scaffold") if row[0] == "GAP" else Fragment(*row)
+
+
+def show_step(step):
+    def rw(r):
+        return f"Gap:{r[1]}" if r[0] == "GAP" else f"{r[0]}:{r[1]}-{r[2]}({'.+-'[r[3]]})"
+
+    op, a = step[0], step[1:]
+    if op == "scan":
+        return "no edit"
+    if op == "add_row":
+        return f"scaffolds[{a[0]}].add_row({rw(a[1])})"
+    if op == "set_row":
+        return f"scaffolds[{a[0]}].rows[{a[1]}] = {rw(a[2])}"
+    if op == "insert_row":
+        return f"scaffolds[{a[0]}].rows.insert({a[1]}, {rw(a[2])})"
+    if op == "del_row":
+        return f"del scaffolds[{a[0]}].rows[{a[1]}]"
+    if op == "assign_rows":
+        return f"scaffolds[{a[0]}].rows = [{', '.join(rw(r) for r in a[1])}]"
+    if op in ("list_append", "add_scaffold"):
+        call = "asm.scaffolds.append" if op == "list_append" else "asm.add_scaffold"
+        return f"{call}(Scaffold([{', '.join(rw(r) for r in a[0])}]))"
+    if op == "list_del":
+        return f"del asm.scaffolds[{a[0]}]"
+    if op == "list_assign":
+        return f"asm.scaffolds = [scaffolds[i] for i in {a[0]}]"
+    if op == "sort":
+        return "asm.smart_sort_scaffolds()"
+    if op == "reverse":
+        return f"scaffolds[{a[0]}] = scaffolds[{a[0]}].reverse()"
+    if op == "join":
+        return f"scaffolds[{a[0]}].append_scaffold(scaffolds[{a[1]}]{', gap' if a[2] else ''})" + ("" if a[3] else f"; del asm.scaffolds[{a[1]}]")
+    raise ValueError(op)
+
+
+def apply_step(asm, step, fresh):
+    """one edit on the real objects; `fresh` hands out names for new scaffolds"""
+    op, a = step[0], step[1:]
+    scs = asm.scaffolds
+    if op == "scan":
+        pass
+    elif op == "add_row":
+        scs[a[0]].add_row(row_obj(a[1]))
+    elif op == "set_row":
+        scs[a[0]].rows[a[1]] = row_obj(a[2])
+    elif op == "insert_row":
+        scs[a[0]].rows.insert(a[1], row_obj(a[2]))
+    elif op == "del_row":
+        del scs[a[0]].rows[a[1]]
+    elif op == "assign_rows":
+        scs[a[0]].rows = [row_obj(r) for r in a[1]]
+    elif op == "list_append":
+        scs.append(Scaffold(next(fresh), [row_obj(r) for r in a[0]]))
+    elif op == "add_scaffold":
+        asm.add_scaffold(Scaffold(next(fresh), [row_obj(r) for r in a[0]]))
+    elif op == "list_del":
+        del scs[a[0]]
+    elif op == "list_assign":
+        asm.scaffolds = [scs[i] for i in a[0]]
+    elif op == "sort":
+        asm.smart_sort_scaffolds()
+    elif op == "reverse":
+        scs[a[0]] = scs[a[0]].reverse()
+    elif op == "join":
+        scs[a[0]].append_scaffold(scs[a[1]], Gap(200, "scaffold") if a[2] else None)
+        if not a[3]:
+            del scs[a[1]]
+    else:
+        raise ValueError(op)
+
+
+def model_step(state, step):
+    """the same edit on plain lists of rows (only used by the generators, to keep indices valid)"""
+    op, a = step[0], step[1:]
+    st = [list(rows) for rows in state]
+    if op == "add_row":
+        st[a[0]].append(a[1])
+    elif op == "set_row":
+        st[a[0]][a[1]] = a[2]
+    elif op == "insert_row":
+        st[a[0]].insert(a[1], a[2])
+    elif op == "del_row":
+        del st[a[0]][a[1]]
+    elif op == "assign_rows":
+        st[a[0]] = list(a[1])
+    elif op in ("list_append", "add_scaffold"):
+        st.append(list(a[0]))
+    elif op == "list_del":
+        del st[a[0]]
+    elif op == "list_assign":
+        st = [list(st[i]) for i in a[0]]
+    elif op == "reverse":
+        st[a[0]] = [r if r[0] == "GAP" else [r[0], r[1], r[2], -r[3]] for r in reversed(st[a[0]])]
+    elif op == "join":
+        st[a[0]] = st[a[0]] + ([["GAP", 200]] if a[2] and st[a[0]] else []) + st[a[1]]
+        if not a[3]:
+            del st[a[1]]
+    return st
+
+
+def build_assembly(scaffolds, build):
+    scs = [Scaffold(f"s{si}", [row_obj(r) for r in rows]) for si, rows in enumerate(scaffolds)]
+    if build == "ctor":
+        return Assembly("qc", scaffolds=scs)
+    asm = Assembly("qc")
+    if build == "parser":  # parse_agp / parse_tpf register a scaffold when its first line is met and fill it afterwards
+        for sc in scs:
+            rows, sc.rows = sc.rows, []
+            asm.add_scaffold(sc)
+            for r in rows:
+                sc.add_row(r)
+    else:
+        for sc in scs:
+            asm.add_scaffold(sc)
+    return asm
+
+
+def scan_now(asm):
+    """(problem text or None, number of overlapping pairs) of one scan against the rows held at this moment"""
+    placed = [(f, sc) for sc in asm.scaffolds for f in sc.rows if isinstance(f, Fragment)]
+    key = lambda v: (id(v[0]), id(v[1]))  # noqa: E731
+    label = {}
+    for f, sc in placed:
+        label[key((f, sc))] = f"{sc.name} {f.name}:{f.start}-{f.end}"
+    want = collections.Counter()
+    for x, y in itertools.combinations(placed, 2):
+        if x[0].name == y[0].name and bases(x[0]) & bases(y[0]):
+            want[tuple(sorted((key(x), key(y))))] += 1
+    got_pairs = asm.find_overlapping_fragments()
+    got = collections.Counter()
+    gone = []
+    for v1, v2 in got_pairs or []:
+        for v in (v1, v2):
+            if key(v) not in label:
+                label[key(v)] = f"{v[1].name} {v[0].name}:{v[0].start}-{v[0].end}"
+                gone.append(label[key(v)])
+        got[tuple(sorted((key(v1), key(v2))))] += 1
+    n_want = sum(want.values())
+
+    def show(counter):
+        prs = sorted(f"{label[a]} / {label[b]}" + (f" x{k}" if k > 1 else "") for (a, b), k in counter.items())
+        return "[" + "; ".join(prs[:6]) + ("; ..." if len(prs) > 6 else "") + "]"
+
+    if (got_pairs is None) != (not want) or got != want:
+        txt = (
+            f"find_overlapping_fragments returned {'None' if got_pairs is None else str(sum(got.values())) + ' pairs'}, the rows "
+            f"the assembly holds at that moment have {n_want} pairs of same-contig fragments sharing a base: missing "
+            f"{show(want - got)}, reported but not overlapping rows of the assembly {show(got - want)}"
+        )
+        if gone:
+            txt += f" ({len(gone)} reported fragments are no rows of the assembly (any more), e.g. {gone[0]})"
+        return txt, n_want
+    return None, n_want
+
+
+def check_rescan(inp, col):
+    """-> list of the numbers of overlapping pairs at each scan"""
+    fresh = (f"n{k}" for k in itertools.count())
+    asm = build_assembly(inp["scaffolds"], inp.get("build", "add"))
+    steps = inp["steps"]
+    scans = inp.get("scans", "every")
+    counts = []
+    n_scan = 0
+    done = "the build"
+    for k in range(len(steps) + 1):
+        if k:
+            apply_step(asm, steps[k - 1], fresh)
+            done = "; ".join(show_step(s) for s in steps[:k])
+        if k == len(steps) or scans == "every" or (scans == "ends" and k == 0):
+            n_scan += 1
+            problem, n = scan_now(asm)
+            counts.append(n)
+            if problem:
+                col.fail(
+                    f"scan {n_scan} of one Assembly object (built by {inp.get('build', 'add')}; before this scan: {done}; "
+                    f"{n_scan - 1} earlier scans of the object): {problem}",
+                    inp,
+                )
+                break
+    return counts
+
+
+# rows used by the edits: one that overlaps most of the pool's c intervals, one beyond all of them, another contig
+ROW_HIT = ["c", 4, 5, 1]
+ROW_FAR = ["c", 8, 9, -1]
+ROW_D = ["d", 2, 2, 0]
+ROW_GAP = ["GAP", 10]
+
+
+def step_menu(state, full):
+    """edits applicable to `state` (plain rows per scaffold): every kind of edit, at the first and the last scaffold"""
+    n = len(state)
+    ends = sorted({0, n - 1}) if n else []
+    menu = [["scan"], ["list_append", [ROW_HIT]], ["add_scaffold", [ROW_HIT]], ["add_scaffold", []]]
+    if full:
+        menu += [["list_append", [ROW_FAR, ROW_D]], ["list_append", []], ["add_scaffold", [ROW_FAR]]]
+    for si in ends:
+        rows = state[si]
+        menu.append(["add_row", si, ROW_HIT])
+        if full or si == 0:
+            menu.append(["add_row", si, ROW_FAR])
+        fi = [i for i, r in enumerate(rows) if r[0] != "GAP"]
+        if fi:
+            menu.append(["set_row", si, fi[0], ROW_HIT])
+            menu.append(["set_row", si, fi[-1], ROW_FAR])
+            menu.append(["del_row", si, fi[-1]])
+            if full:
+                menu.append(["del_row", si, fi[0]])
+                menu.append(["set_row", si, fi[-1], ROW_D])
+        if full:
+            menu.append(["add_row", si, ROW_D])
+    if n:
+        menu += [["add_row", 0, ROW_GAP], ["insert_row", 0, 0, ROW_HIT], ["assign_rows", n - 1, [ROW_HIT, ROW_FAR]]]
+        menu += [["assign_rows", 0, []], ["list_del", 0], ["list_assign", list(range(n - 1, -1, -1))], ["list_assign", [0]]]
+        menu += [["sort"], ["reverse", 0]]
+        if full:
+            menu += [["reverse", n - 1], ["list_del", n - 1], ["list_assign", []], ["insert_row", n - 1, len(state[n - 1]), ROW_FAR]]
+    if n > 1:
+        menu += [["join", 0, n - 1, True, False], ["join", n - 1, 0, False, True]]
+        if full:
+            menu += [["join", 0, n - 1, False, False], ["join", 0, 1, True, True]]
+    out, seen = [], set()
+    for st in menu:
+        k = json.dumps(st)
+        if k not in seen:
+            seen.add(k)
+            out.append(st)
+    return out
+
+
+RESCAN_BASES = (
+    [[["c", 1, 4, 1], ["GAP", 10], ["d", 1, 4, 1]], [["c", 5, 6, -1], ["c", 7, 7, 1]]],  # no pair
+    [[["c", 1, 4, 1], ["c", 4, 6, -1], ["d", 1, 4, 1]], [["d", 2, 3, 1], ["c", 7, 7, 1]]],  # two pairs (ASM_TWO)
+    [[["c", 1, 4, 1]], [["c", 1, 4, 1], ["c", 1, 7, -1]]],  # identical intervals (ASM_DUP)
+    [[["c", 2, 3, 0]]],
+    [],
+)
+
+
+def rescan_sequences(state, depth, full):
+    """every sequence of 1..depth edits from the menus (each menu taken at the state its predecessors lead to)"""
+    for st in step_menu(state, full):
+        yield [st]
+        if depth > 1:
+            for rest in rescan_sequences(model_step(state, st), depth - 1, full):
+                yield [st, *rest]
+
+
+def rescan_cases(tier, rng):
+    quick = tier == "quick"
+    bases_ = RESCAN_BASES[:3] if quick else RESCAN_BASES
+    for bi, base in enumerate(bases_):
+        for build in ("add", "ctor", "parser"):
+            if quick and build != ("add", "ctor", "parser")[bi % 3] and bi != 1:
+                continue
+            for steps in rescan_sequences(base, 2, full=not quick):
+                for scans in ("every", "ends", "last") if len(steps) > 1 else ("every", "last"):
+                    if quick and scans != "every" and (build != "add" or bi != 1):
+                        continue
+                    yield {"kind": "rescan", "scaffolds": base, "build": build, "scans": scans, "steps": steps}
+    if quick:
+        return
+    # three edits in a row: the reduced menu on two assemblies
+    for base in RESCAN_BASES[1:3]:
+        for build in ("add", "ctor"):
+            for steps in rescan_sequences(base, 3, full=False):
+                if len(steps) == 3:
+                    yield {"kind": "rescan", "scaffolds": base, "build": build, "scans": "every", "steps": steps}
+    # long seeded edit histories on assemblies with many overlapping pairs
+    for ci in range(400):
+        base = big_assembly(rng.randint(3, 60), rng.randint(1, 4), ci % 3 == 0, rng)
+        state, steps = base, []
+        names = sorted({r[0] for rows in base for r in rows})
+        for _ in range(rng.randint(3, 12)):
+            n = len(state)
+            nm = rng.choice(names)
+            a = rng.randint(1, 70)
+            row = [nm, a, a + rng.randint(0, 30), rng.choice((1, -1, 0))]
+            si = rng.randrange(n) if n else 0
+            cands = [["scan"], ["list_append", [row]], ["add_scaffold", [row]], ["add_scaffold", []], ["sort"]]
+            if n:
+                cands += [["add_row", si, row], ["add_row", si, row], ["reverse", si], ["list_del", si], ["assign_rows", si, [row]]]
+                cands += [["list_assign", rng.sample(range(n), rng.randint(0, n))]]
+                if state[si]:
+                    ri = rng.randrange(len(state[si]))
+                    cands += [["set_row", si, ri, row], ["set_row", si, ri, row], ["del_row", si, ri], ["insert_row", si, ri, row]]
+            if n > 1:
+                sj = rng.choice([j for j in range(n) if j != si])
+                cands += [["join", si, sj, rng.random() < 0.5, False]]
+            st = rng.choice(cands)
+            steps.append(st)
+            state = model_step(state, st)
+        yield {"kind": "rescan", "scaffolds": base, "build": rng.choice(("add", "ctor", "parser")), "scans": rng.choice(("every", "every", "ends")), "steps": steps}
+
+
 # fixed assemblies for the route product: no overlap at all (abutting, disjoint, same coordinates on
 # another contig); a one-base overlap inside a scaffold plus a nested interval across scaffolds;
 # identical intervals three times (three pairs); unknown strand (AGP only)
@@ -447,7 +777,12 @@ def run_in(tier, seed, **opts):
         "with 0, 2 and 3 overlapping pairs, and on every k-th enumerated assembly with the routes taken in rotation; "
         "a few assemblies with many overlapping pairs (100, 101, 105, 150, 1001, 1035; thorough: up to 10001 and random "
         "counts) built from groups of mutually overlapping or identical intervals, through the scan and the command line; "
-        "non-trivial = distinct (input) tuples (for the command line: at least one overlapping pair expected)"
+        "scans repeated on one Assembly object with edits in between (every sequence of <= 2 edits from a menu of every kind "
+        "of edit the data model offers, on assemblies with 0, 2 and 3 pairs built with add_scaffold / the constructor / in "
+        "parser order; thorough: fuller menu, 3 edits, long seeded histories), each scan judged against the rows held at "
+        "that moment; "
+        "non-trivial = distinct (input) tuples (for the command line: at least one overlapping pair expected; for repeated "
+        "scans: the number of overlapping pairs differs between two scans)"
     )
     ivs = [(s, e) for s in range(1, N + 1) for e in range(s, N + 1)]
     for (s1, e1), (s2, e2) in itertools.product(ivs, ivs):
@@ -456,6 +791,12 @@ def run_in(tier, seed, **opts):
             inp = {"kind": "pair", "a": a, "b": b}
             check_pair(Fragment(*a), Fragment(*b), col, inp)
             col.case((a, b), sample=inp if (s1, e1, s2, e2) == (2, 4, 3, 5) else None)
+    # scans repeated on one Assembly object, edits in between
+    for ri, inp in enumerate(rescan_cases(tier, rng)):
+        counts = check_rescan(inp, col)
+        col.case(("rescan", json.dumps(inp, sort_keys=True)), nontrivial=len(set(counts)) > 1, sample=inp if ri == 333 else None)
+        if col.full:
+            break
     # scans
     pool = [("c", 1, 4, 1), ("c", 2, 3, 1), ("c", 4, 6, -1), ("c", 5, 6, 1), ("c", 1, 4, 1), ("d", 1, 4, 1), ("c", 7, 7, 1), ("c", 1, 7, -1)]
     max_n = 4 if tier == "quick" else 5
